@@ -3,13 +3,13 @@ From Coq Require Import List.
 From ADC Require Import Core.Scalar Core.Index Core.Expr Models.Spin Models.SpinProofs.
 Import ListNotations.
 
-(* The list of spin assignments substituted by (patched) integrate_spin for one term
+(* The list of spin assignments substituted by integrate_spin for one term
    is duplicate-free and is exactly the set of total maps indices -> {alpha, beta}
    that agree with the target spins and put every object with a block table on
    an allowed block. *)
 Theorem C15_integrate_enumerates : forall tm objs tidx,
   wf_objs objs -> NoDup tidx -> idx_closed objs tidx ->
-  exists R, integrate_objs true tm objs tidx = Ok R /\
+  exists R, integrate_objs tm objs tidx = Ok R /\
     NoDup (map (assign_list tidx) R) /\
     forall a, In a (map (assign_list tidx) R) <->
               exists g, good tm objs tidx g /\ a = map (fun x => Some (g x)) tidx.
@@ -22,35 +22,33 @@ Theorem C15_wf_check_sound : forall objs, wf_objs_b objs = true -> wf_objs objs.
 Proof. exact wf_objs_b_sound. Qed.
 Print Assumptions C15_wf_check_sound.
 
-(* The code as it is computes the same list whenever it does not raise, some object
-   has a block table and every contracted index sits on an object with a table. *)
-Theorem C15_impl_agrees : forall tm objs tidx R,
-  wf_objs objs -> NoDup tidx -> idx_closed objs tidx ->
-  has_table objs -> contracted_on_table tm objs tidx ->
-  integrate_objs false tm objs tidx = Ok R -> integrate_objs true tm objs tidx = Ok R.
-Proof. exact impl_agrees. Qed.
+(* integrate_spin (after the repairs it is the function of C15_integrate_enumerates
+   itself) never raises: no side condition on tables, targets or indices is needed. *)
+Theorem C15_impl_agrees : forall tm objs tidx, exists R, integrate_objs tm objs tidx = Ok R.
+Proof. exact integrate_total. Qed.
 Print Assumptions C15_impl_agrees.
 
-(* Outside these side conditions the code as it is violates the enumeration property. *)
-Theorem C15_impl_refuted_no_table :
-  exists tm objs tidx, wf_objs objs /\ NoDup tidx /\ idx_closed objs tidx /\
-    integrate_objs false tm objs tidx = Ok [] /\ exists g, good tm objs tidx g.
-Proof. exact impl_refuted_no_table. Qed.
-Print Assumptions C15_impl_refuted_no_table.
+(* Regression examples: the inputs on which the code violated the enumeration
+   property before the repairs (sum_i f_ii; delta_ij e_a with i, j alpha; V^{ij}_{ij}). *)
+Theorem C15_regression_no_table :
+  rbind (integrate_objs [] [([w_i; w_i], None)] [w_i]) (fun R => Ok (map (assign_list [w_i]) R)) =
+  Ok [[Some SA]; [Some SB]].
+Proof. exact regression_no_table. Qed.
+Print Assumptions C15_regression_no_table.
 
-Theorem C15_impl_refuted_shallow_copy :
-  exists tm objs tidx R, wf_objs objs /\ NoDup tidx /\ idx_closed objs tidx /\ has_table objs /\
-    integrate_objs false tm objs tidx = Ok R /\ ~ NoDup (map (assign_list tidx) R) /\
-    exists g, good tm objs tidx g /\ ~ In (map (fun x => Some (g x)) tidx) (map (assign_list tidx) R).
-Proof. exact impl_refuted_shallow_copy. Qed.
-Print Assumptions C15_impl_refuted_shallow_copy.
+Theorem C15_regression_shallow_copy :
+  rbind (integrate_objs [(w_i, SA); (w_j, SA)] [([w_i; w_j], Some delta_blocks); ([w_a], None)] [w_i; w_j; w_a])
+        (fun R => Ok (map (assign_list [w_i; w_j; w_a]) R)) =
+  Ok [[Some SA; Some SA; Some SA]; [Some SA; Some SA; Some SB]].
+Proof. exact regression_shallow_copy. Qed.
+Print Assumptions C15_regression_shallow_copy.
 
-Theorem C15_impl_refuted_repeated_index :
-  exists tm objs tidx c, wf_objs objs /\ NoDup tidx /\ idx_closed objs tidx /\ has_table objs /\
-    contracted_on_table tm objs tidx /\
-    integrate_objs false tm objs tidx = Err c /\ exists g, good tm objs tidx g.
-Proof. exact impl_refuted_repeated_index. Qed.
-Print Assumptions C15_impl_refuted_repeated_index.
+Theorem C15_regression_repeated_index :
+  rbind (integrate_objs [] [([w_i; w_j; w_i; w_j], Some eri_blocks)] [w_i; w_j])
+        (fun R => Ok (map (assign_list [w_i; w_j]) R)) =
+  Ok [[Some SA; Some SA]; [Some SA; Some SB]; [Some SB; Some SA]; [Some SB; Some SB]].
+Proof. exact regression_repeated_index. Qed.
+Print Assumptions C15_regression_repeated_index.
 
 (* ------------------------------------------------------------------ *)
 From Coq Require Import ZArith QArith.
@@ -78,7 +76,7 @@ Theorem C15_integrate_value :
   forall r : env,
   (forall x s, In x tidx -> tlookup tm x = Some s -> ospin (r x) = s) ->
   (forall x, In x (tg ++ term_idx t) -> ispin x = NoSpin /\ iuid x = 0%N) ->
-  exists R, integrate_objs true tm (objs_of tbl (tfacs t)) tidx = Ok R /\
+  exists R, integrate_objs tm (objs_of tbl (tfacs t)) tidx = Ok R /\
     eval_term S T tg r t =
     ksum R (fun m => eval_term S T (map (lab m) tg) (fun y => r (unspin y)) (ren_term (lab m) t)).
 Proof. exact integrate_value. Qed.
@@ -186,7 +184,7 @@ Print Assumptions C15_unreported_block_zero.
 
 (* the hypotheses are satisfiable: MP2-energy term on a four-orbital model over Qc *)
 Example C15_hypotheses_satisfiable : forall r : env,
-  exists R, integrate_objs true [] (objs_of (tbl_of []) (tfacs mp2)) (atoms_idx (term_atoms mp2)) = Ok R /\
+  exists R, integrate_objs [] (objs_of (tbl_of []) (tfacs mp2)) (atoms_idx (term_atoms mp2)) = Ok R /\
     length R = 6 /\
     eval_term QcS15 T15 [] r mp2 =
     ksum R (fun m => eval_term QcS15 T15 (map (lab m) []) (fun y => r (unspin y)) (ren_term (lab m) mp2)).
